@@ -71,8 +71,10 @@ func classify(f *Finding, input string, cfg Config) {
 		f.ID = "K20"
 	case (f.Family == "bgpos" || f.Family == "background") && farPctNotPlainInt(in):
 		f.ID = "N03"
-	case reNewMath.MatchString(in) && (has("output-not-in-grammar") || has("zero-unit-dropped:length") || has("tokens-")):
-		f.ID = "N13"
+	case reNewMath.MatchString(in) && has("zero-unit-dropped:length"):
+		f.ID = "N13" // K92, repaired: a recurrence is a new violation
+	case reNewMath.MatchString(in) && (f.Family == "bgpos" || f.Family == "background") && (has("output-not-in-grammar") || has("tokens-")):
+		f.ID = "N22" // a math function as an offset of a background position
 	case f.Family == "bgpos" && laterLayerHas3(in):
 		f.ID = "N16"
 	case f.Family == "background" && reTwoValueSize.MatchString(in) && (has("width:") || has("height:") || has("size:") || has("output-not-in-grammar")):
